@@ -355,7 +355,7 @@ func finish(spec Spec, tier string, entries []EntrySpec, results []*entryResult,
 	var rp *replayer
 	if len(order) > 0 || nWit > 0 {
 		rp = newReplayer(entries, spec.Focus, spec.FocusFuncs)
-		defer rp.close()
+		exitCleanups = append(exitCleanups, rp.close) // finish() ends in os.Exit: defers do not run
 	}
 	violations := 0
 	knownHits := []string{}
